@@ -303,3 +303,10 @@ def run(chk):
     C01.check_s8(chk, m, K)
     chk.rule_prefix = ""
     chk.rule_filter = None
+    # the run queue and the timer queue are list_t: FIFO / sorted order rest on list.c keeping head, tail and links right (C09)
+    from . import C09
+    chk.rule_prefix = "list."
+    chk.rule_filter = lambda r: r.startswith(("N1", "N2", "N3", "N5", "N6"))
+    C09.run_rules(chk)
+    chk.rule_prefix = ""
+    chk.rule_filter = None
